@@ -9,6 +9,7 @@ import EtkVerif.Driver.FsCmd
 import EtkVerif.Driver.LstCmd
 import EtkVerif.Driver.LayCmd
 import EtkVerif.Driver.ProgCmd
+import EtkVerif.Driver.FullCmd
 open EtkVerif.Driver
 
 def dispatch (line : String) : String :=
@@ -28,6 +29,7 @@ def dispatch (line : String) : String :=
     else if cmd == "lst" then cmdLst args
     else if cmd == "lay" then cmdLay args
     else if cmd == "proggen" then cmdProgGen args
+    else if cmd == "fullgen" then cmdFullGen args
     else s!"bad-op {cmd}"
   | [] => "bad-op"
 
